@@ -425,8 +425,16 @@ async fn raw_read_frame(r: &mut quinn::RecvStream) -> Option<(u64, Vec<u8>)> {
 fn spawn_raw_recorders(w: &mut World, conn: quinn::Connection, bidi: bool) {
     let log = w.log.clone();
     let c = conn.clone();
+    // `peer_no_read`: the raw peer accepts the endpoint's streams but never reads them (they stay open and
+    // unread, so the endpoint's writes stop at the flow-control window)
+    let no_read = w.cfg.get("peer_no_read").and_then(|v| v.as_bool()).unwrap_or(false);
     w.bg.push(tokio::spawn(async move {
+        let mut parked = Vec::new();
         while let Ok(mut r) = c.accept_uni().await {
+            if no_read {
+                parked.push(r);
+                continue;
+            }
             let log = log.clone();
             tokio::spawn(async move {
                 let id = u64::from(quinn::VarInt::from(r.id()));
@@ -793,6 +801,7 @@ async fn setup(w: &mut World, scn: &Value) {
     let cfg = scn.get("cfg").cloned().unwrap_or(json!({}));
     let manual = scn.get("manual").and_then(|v| v.as_bool()).unwrap_or(false);
     w.cfg = cfg.clone();
+    w.cfg["_role"] = json!(role);
     match (role.as_str(), peer.as_str()) {
         ("server", "raw") => {
             let Some(ep) = retry_ep(&w.log, "server endpoint", || Endpoint::server(sut_server_config(&cfg))).await else { return };
@@ -1039,6 +1048,7 @@ async fn read_to_end(
     limit: usize,
     ms: u64,
     quiet: Option<(usize, u64)>,
+    rapi: &str,
 ) -> (Vec<u8>, Value, Vec<usize>) {
     let mut all = Vec::new();
     let mut sizes = Vec::new();
@@ -1059,6 +1069,15 @@ async fn read_to_end(
         }
         let want = buf.len().min(limit - all.len());
         let res = match r {
+            // `api = "tokio"`: through the tokio::io::AsyncRead impl (0 bytes = end of stream)
+            RecvH::App(x) if rapi == "tokio" => {
+                match tokio::time::timeout_at(deadline, tokio::io::AsyncReadExt::read(x, &mut buf[..want])).await {
+                    Ok(Ok(0)) => Ok(None),
+                    Ok(Ok(n)) => Ok(Some(n)),
+                    Ok(Err(e)) => Err(json!({"k": "err", "err": {"k": "io", "text": e.to_string()}})),
+                    Err(_) => Err(json!({"k": "timeout"})),
+                }
+            }
             RecvH::App(x) => match tokio::time::timeout_at(deadline, x.read(&mut buf[..want])).await {
                 Ok(Ok(Some(n))) => Ok(Some(n)),
                 Ok(Ok(None)) => Ok(None),
@@ -1227,6 +1246,7 @@ async fn conn_op(
             // `pure`: every accept is one uninterrupted await (never re-polled by a timeout), the
             // way an application task blocked in accept behaves; the caller takes exactly `n`
             let pure = step.get("pure").and_then(|v| v.as_bool()).unwrap_or(false);
+            let poll_once = step.get("poll_once").and_then(|v| v.as_bool()).unwrap_or(false);
             let mut last_progress = tokio::time::Instant::now();
             while got < n && tokio::time::Instant::now() < deadline {
                 if !pure && tokio::time::Instant::now() - last_progress > idle {
@@ -1238,7 +1258,44 @@ async fn conn_op(
                     None if pure => deadline - tokio::time::Instant::now(),
                     None => (deadline - tokio::time::Instant::now()).min(idle),
                 };
-                if op == "accept_n_uni" {
+                if poll_once {
+                    // the accept future is polled exactly once and dropped if it is not ready (the
+                    // documented cancel safety: nothing may be lost by that), then reissued after a pause
+                    let r: Option<Result<(u64, Option<wtransport::RecvStream>, &str), ConnectionError>> = if op == "accept_n_uni" {
+                        let mut fut = std::pin::pin!(conn.accept_uni());
+                        tokio::select! { biased;
+                            r = &mut fut => Some(r.map(|x| (x.id().into_u64(), Some(x), "uni"))),
+                            _ = std::future::ready(()) => None,
+                        }
+                    } else {
+                        let mut fut = std::pin::pin!(conn.accept_bi());
+                        tokio::select! { biased;
+                            r = &mut fut => Some(r.map(|(_s, x)| (x.id().into_u64(), Some(x), "bi"))),
+                            _ = std::future::ready(()) => None,
+                        }
+                    };
+                    match r {
+                        Some(Ok((id, Some(mut rx), kind))) => {
+                            got += 1;
+                            last_progress = tokio::time::Instant::now();
+                            let mut b = [0u8; 8];
+                            let first = match timeout(Duration::from_millis(3000), rx.read_exact(&mut b)).await {
+                                Ok(Ok(())) => jbytes(&b),
+                                _ => json!([]),
+                            };
+                            log.emit(&who, "accepted", fields! {"kind" => kind, "caller" => tag.clone(), "id" => v62(id), "first" => first});
+                        }
+                        Some(Ok(_)) => {}
+                        Some(Err(e)) => {
+                            last = conn_err(&e);
+                            break;
+                        }
+                        None => {
+                            cancelled += 1;
+                            tokio::time::sleep(Duration::from_millis(cancel.unwrap_or(1))).await;
+                        }
+                    }
+                } else if op == "accept_n_uni" {
                     match timeout(slice, conn.accept_uni()).await {
                         Ok(Ok(mut r)) => {
                             got += 1;
@@ -1336,7 +1393,7 @@ async fn stream_op(log: Arc<Log>, who: String, streams: Shared<Streams>, step: V
                     let limit = u(&step, "limit", 64 << 20) as usize;
                     let prior = streams.lock().await.roff.get(&k).copied().unwrap_or(0);
                     let quiet = step.get("want").and_then(|v| v.as_u64()).map(|w| (w as usize, u(&step, "grace_ms", 80)));
-                    let (all, end, sizes) = read_to_end(&mut r, bufsize, limit, ms, quiet).await;
+                    let (all, end, sizes) = read_to_end(&mut r, bufsize, limit, ms, quiet, s(&step, "api")).await;
                     streams.lock().await.roff.insert(k.clone(), prior + all.len());
                     m.insert("prior".into(), json!(prior));
                     data_fields(&mut m, &all);
@@ -1389,12 +1446,41 @@ async fn stream_op(log: Arc<Log>, who: String, streams: Shared<Streams>, step: V
                     }
                     let data = payload_salted(&step, salt_eff);
                     let chunk = u(&step, "chunk", 0) as usize;
+                    let wapi = s(&step, "api").to_string();
                     let mut off = 0usize;
                     let mut res = json!({"k": "ok"});
                     let r = timeout(dl, async {
                         while off < data.len() {
                             let end = if chunk == 0 { data.len() } else { (off + chunk).min(data.len()) };
                             let wr = match &mut sx {
+                                // `api`: which of the stream's write interfaces carries the bytes
+                                //   "tokio"    tokio::io::AsyncWriteExt::write_all on the AsyncWrite impl
+                                //   "vectored" AsyncWriteExt::write_vectored with the piece cut into 4 slices
+                                SendH::App(x) if wapi == "tokio" => tokio::io::AsyncWriteExt::write_all(x, &data[off..end])
+                                    .await
+                                    .map_err(|e| json!({"k": "io", "text": e.to_string()})),
+                                SendH::App(x) if wapi == "vectored" => {
+                                    let piece = &data[off..end];
+                                    let q = (piece.len() / 4).max(1);
+                                    let mut pos = 0usize;
+                                    let mut out = Ok(());
+                                    while pos < piece.len() {
+                                        let rest = &piece[pos..];
+                                        let slices: Vec<std::io::IoSlice> = rest.chunks(q).map(std::io::IoSlice::new).collect();
+                                        match tokio::io::AsyncWriteExt::write_vectored(x, &slices).await {
+                                            Ok(0) => {
+                                                out = Err(json!({"k": "io", "text": "write_vectored returned 0"}));
+                                                break;
+                                            }
+                                            Ok(n) => pos += n.min(rest.len()),
+                                            Err(e) => {
+                                                out = Err(json!({"k": "io", "text": e.to_string()}));
+                                                break;
+                                            }
+                                        }
+                                    }
+                                    out
+                                }
                                 SendH::App(x) => x.write_all(&data[off..end]).await.map_err(|e| write_err(&e)),
                                 SendH::Raw(x) => x.write_all(&data[off..end]).await.map_err(|e| match e {
                                     quinn::WriteError::Stopped(c) => json!({"k": "Stopped", "code": v62(c.into_inner())}),
@@ -1428,6 +1514,14 @@ async fn stream_op(log: Arc<Log>, who: String, streams: Shared<Streams>, step: V
                         log.emit(&who, "op_done", m);
                         m = fields! {"op" => "finish", "tag" => tag.clone()};
                         let r = match &mut sx {
+                            // with the tokio interfaces the stream is ended through AsyncWriteExt::shutdown
+                            SendH::App(x) if wapi == "tokio" || wapi == "vectored" => {
+                                match timeout(dl, tokio::io::AsyncWriteExt::shutdown(x)).await {
+                                    Ok(Ok(())) => json!({"k": "ok"}),
+                                    Ok(Err(e)) => json!({"k": "err", "err": {"k": "io", "text": e.to_string()}}),
+                                    Err(_) => json!({"k": "timeout"}),
+                                }
+                            }
                             SendH::App(x) => match timeout(dl, x.finish()).await {
                                 Ok(Ok(())) => json!({"k": "ok"}),
                                 Ok(Err(e)) => json!({"k": "err", "err": write_err(&e)}),
@@ -1443,6 +1537,69 @@ async fn stream_op(log: Arc<Log>, who: String, streams: Shared<Streams>, step: V
                     streams.lock().await.send.insert(k, sx);
                 }
                 None => {
+                    m.insert("res".into(), json!({"k": "nohandle"}));
+                }
+            }
+        }
+        "bistream" => {
+            // the two halves joined into a BiStream: write `len` pattern bytes and shut down through its
+            // AsyncWrite side, then read to the end through its AsyncRead side (the object stays alive),
+            // split again.  Logged as the usual write / finish / read results.
+            let sh = streams.lock().await.send.remove(&k);
+            let rh = streams.lock().await.recv.remove(&k);
+            match (sh, rh) {
+                (Some(SendH::App(sx)), Some(RecvH::App(rx))) => {
+                    let mut bi = wtransport::stream::BiStream::join((sx, rx));
+                    let salt = u(&step, "salt", 0) as usize;
+                    let data = payload_salted(&step, salt);
+                    let wr = timeout(dl, tokio::io::AsyncWriteExt::write_all(&mut bi, &data)).await;
+                    let wres = match wr {
+                        Ok(Ok(())) => json!({"k": "ok"}),
+                        Ok(Err(e)) => json!({"k": "err", "err": {"k": "io", "text": e.to_string()}}),
+                        Err(_) => json!({"k": "timeout"}),
+                    };
+                    let wok = wres["k"] == "ok";
+                    log.emit(&who, "op_done", fields! {"op" => "write", "tag" => tag.clone(), "res" => wres,
+                        "written" => if wok { data.len() } else { 0 }, "len" => data.len(), "salt" => salt, "off" => 0});
+                    let fr = match timeout(dl, tokio::io::AsyncWriteExt::shutdown(&mut bi)).await {
+                        Ok(Ok(())) => json!({"k": "ok"}),
+                        Ok(Err(e)) => json!({"k": "err", "err": {"k": "io", "text": e.to_string()}}),
+                        Err(_) => json!({"k": "timeout"}),
+                    };
+                    log.emit(&who, "op_done", fields! {"op" => "finish", "tag" => tag.clone(), "res" => fr});
+                    let mut all = Vec::new();
+                    let mut buf = vec![0u8; u(&step, "buf", 4096).max(1) as usize];
+                    let deadline = tokio::time::Instant::now() + Duration::from_millis(ms);
+                    let end = loop {
+                        match tokio::time::timeout_at(deadline, tokio::io::AsyncReadExt::read(&mut bi, &mut buf)).await {
+                            Ok(Ok(0)) => break json!({"k": "fin"}),
+                            Ok(Ok(n)) => all.extend_from_slice(&buf[..n]),
+                            Ok(Err(e)) => break json!({"k": "err", "err": {"k": "io", "text": e.to_string()}}),
+                            Err(_) => break json!({"k": "timeout"}),
+                        }
+                    };
+                    let rsalt = u(&step, "rsalt", 0) as usize;
+                    m.insert("op".into(), json!("read"));
+                    m.insert("prior".into(), json!(0));
+                    data_fields(&mut m, &all);
+                    m.insert("end".into(), end);
+                    m.insert("res".into(), json!("done"));
+                    let upto = all.iter().enumerate().take_while(|(i, b)| **b == gen::pat(*i, rsalt)).count();
+                    m.insert("pat_upto".into(), json!(upto));
+                    m.insert("salt".into(), json!(rsalt));
+                    let (sx, rx) = bi.split();
+                    let mut g = streams.lock().await;
+                    g.send.insert(k.clone(), SendH::App(sx));
+                    g.recv.insert(k, RecvH::App(rx));
+                }
+                (a, b) => {
+                    let mut g = streams.lock().await;
+                    if let Some(a) = a {
+                        g.send.insert(k.clone(), a);
+                    }
+                    if let Some(b) = b {
+                        g.recv.insert(k.clone(), b);
+                    }
                     m.insert("res".into(), json!({"k": "nohandle"}));
                 }
             }
@@ -1708,7 +1865,7 @@ async fn run_step(w: &mut World, step: &Value) {
             let st = step.clone();
             let who2 = who.clone();
             w.log.emit(&who, "op_start", fields! {"op" => op.clone(), "tag" => tag.clone()});
-            let h = if matches!(op.as_str(), "read" | "write" | "finish" | "stopped") {
+            let h = if matches!(op.as_str(), "read" | "write" | "finish" | "stopped" | "bistream") {
                 tokio::spawn(stream_op(log, who2, streams, st))
             } else {
                 let Some(c) = conn_of(w, &who).cloned() else {
@@ -1752,7 +1909,7 @@ async fn run_step(w: &mut World, step: &Value) {
             st["op"] = json!(a);
             conn_op(w.log.clone(), who.clone(), c, w.streams.clone(), st).await;
         }
-        (_, "read") | (_, "write") | (_, "finish") | (_, "stopped") => {
+        (_, "read") | (_, "write") | (_, "finish") | (_, "stopped") | (_, "bistream") => {
             let mut st = step.clone();
             st["op"] = json!(a);
             stream_op(w.log.clone(), who.clone(), w.streams.clone(), st).await;
@@ -1862,6 +2019,31 @@ async fn run_step(w: &mut World, step: &Value) {
                 &who,
                 "op_done",
                 fields! {"op" => "close", "code" => v62(code), "reason" => jbytes(&reason), "res" => "ok"},
+            );
+        }
+        (_, "close_endpoint") => {
+            // Endpoint::close on the endpoint under test: closes every connection of it with this code / reason
+            let code = big(step, "code", 0);
+            let reason = byte_arr(step, "reason");
+            let mut done = false;
+            for k in &w.keep {
+                if let Some(ep) = k.downcast_ref::<Endpoint<endpoint_side::Server>>() {
+                    if s(&w.cfg, "_role") != "client" {
+                        ep.close(VarInt::try_from_u64(code).unwrap(), &reason);
+                        done = true;
+                    }
+                } else if let Some(ep) = k.downcast_ref::<Endpoint<endpoint_side::Client>>() {
+                    if s(&w.cfg, "_role") == "client" {
+                        ep.close(VarInt::try_from_u64(code).unwrap(), &reason);
+                        done = true;
+                    }
+                }
+            }
+            w.log.emit(
+                &who,
+                "op_done",
+                fields! {"op" => "close", "via" => "endpoint", "code" => v62(code), "reason" => jbytes(&reason),
+                "res" => if done { "ok" } else { "noendpoint" }},
             );
         }
         (_, "clone_conn") => {
